@@ -352,6 +352,17 @@ class Ctx:
             return
         self.goals.append((cid, 'eq', (S.lift(a), S.lift(b)), note))
 
+    def derivative(self, fn, x, h=1e-6):
+        """d fn(x) / dx.  sym/concolic: total derivative of the expression returned by the (real) code with respect to the
+        input symbol, through the sqrt / trig / exp atoms it introduced (implicit differentiation of their defining
+        equations); num: central difference on the real code (bounded tier: compare with a tolerance >= 1e-6)"""
+        if self.mode == 'num':
+            return (float(self.val(fn(x + h))) - float(self.val(fn(x - h)))) / (2 * h)
+        v = S.lift(self.val(fn(x)))
+        if v.kind != S.FIN or not isinstance(x, Sym) or not x.e.is_Symbol:
+            raise Unsupported('derivative: needs a finite value and an input symbol')
+        return Sym(_total_derivative(self.path, v.e, x.e, {}))
+
     def snapshot(self, **roots):
         return snapshot(roots)
 
@@ -397,6 +408,44 @@ class Ctx:
 # ------------------------------------------------------------------------------------------
 # frames
 # ------------------------------------------------------------------------------------------
+def _total_derivative(path, e, xs, memo):
+    e = sp.sympify(e)
+    key = sp.srepr(e)
+    if key in memo:
+        return memo[key]
+    defs = {}
+    for _k, (r_, rad_) in path.sqrt_atoms.items():
+        defs[r_] = ('sqrt', rad_)
+    for _k, (c_, s_, base_) in path.trig_atoms.items():
+        defs[c_] = ('cos', s_, base_)
+        defs[s_] = ('sin', c_, base_)
+    for _k, ent in path.fun_atoms.items():
+        defs[ent[0]] = ('fun', ent[1], ent[2])
+    out = sp.diff(e, xs)
+    for a in e.free_symbols:
+        if a == xs or a not in defs:
+            continue
+        d = defs[a]
+        if d[0] == 'sqrt':
+            da = _total_derivative(path, d[1], xs, memo) / (2 * a)
+        elif d[0] == 'cos':
+            da = -d[1] * _total_derivative(path, d[2], xs, memo)
+        elif d[0] == 'sin':
+            da = d[1] * _total_derivative(path, d[2], xs, memo)
+        else:
+            inner = [_total_derivative(path, arg, xs, memo) for arg in d[2]]
+            if all(i == 0 for i in inner):
+                da = sp.S.Zero
+            elif d[1] == 'exp':
+                da = a * inner[0]
+            else:
+                raise Unsupported('derivative through the uninterpreted function %s' % d[1])
+        if da != 0:
+            out = out + sp.diff(e, a) * da
+    memo[key] = out
+    return out
+
+
 def snapshot(roots, depth=8, shapes=False, expand_shared=False):
     """object graph -> {path string: (id, summary value)} for frame checks"""
     out = {}
